@@ -8,19 +8,34 @@ EXTENDS Verdict, Json
 Mods == {"elemhide", "generichide", "jsinject", "document", "urlblock", "genericblock", "content", "extension", "important"}
 Doc5 == {"elemhide", "jsinject", "urlblock", "content", "extension"}
 PM == Str("||h.test^")
-RuleOf(white, ms) == [BaseRule EXCEPT !.pat = PM, !.white = white, !.important = "important" \in ms,
-                                      !.docOpts = (ms \cap DocOpts) \cup (IF "document" \in ms THEN Doc5 ELSE {})]
-VARIABLES kind, ms
-Init == kind = "root" /\ ms = {}
+\* ct: a content-type modifier written next to the others.  A rule with a document-level modifier applies to
+\* documents whatever content types it names (Rule!EffPermTypes); without one, the content type decides whether
+\* the rule matches the page's own (document) request at all.
+CTypes == {"none", "subdocument", "script", "~image"}
+RuleOfT(white, ms, ct) ==
+    [BaseRule EXCEPT !.pat = PM, !.white = white, !.important = "important" \in ms,
+                     !.docOpts = (ms \cap DocOpts) \cup (IF "document" \in ms THEN Doc5 ELSE {}),
+                     !.permTypes = IF ct \in {"subdocument", "script"} THEN {ct} ELSE {},
+                     !.restTypes = IF ct = "~image" THEN {"image"} ELSE {}]
+RuleOf(white, ms) == RuleOfT(white, ms, "none")
+VARIABLES kind, ms, ct
+Init == kind = "root" /\ ms = {} /\ ct = "none"
 Next == /\ kind = "root"
-        /\ \/ kind' = "exception" /\ ms' \in SUBSET Mods
-           \/ kind' = "block" /\ ms' \in {{}, {"important"}}
-           \/ kind' = "absent" /\ ms' = {}
-Basic == IF kind = "absent" THEN Nil ELSE RuleOf(kind = "exception", ms)
-Emit == kind # "root" => PrintT(ToJson([kind |-> kind, mods |-> ms, option |-> CosmeticOption(Basic)]))
+        /\ \/ kind' = "exception" /\ ms' \in SUBSET Mods /\ ct' \in CTypes
+           \/ kind' = "block" /\ ms' \in {{}, {"important"}} /\ ct' \in CTypes
+           \/ kind' = "absent" /\ ms' = {} /\ ct' = "none"
+PageReq == [type |-> "document"]      \* TypeOK reads nothing else
+TheRule == RuleOfT(kind = "exception", ms, ct)
+\* the basic rule of the page's own request / of a verdict built directly from the rule
+Basic == IF kind = "absent" \/ ~TypeOK(TheRule, PageReq) THEN Nil ELSE TheRule
+Direct == IF kind = "absent" THEN Nil ELSE TheRule
+Emit == kind # "root" => PrintT(ToJson([kind |-> kind, mods |-> ms, ctype |-> ct, option |-> CosmeticOption(Basic),
+                                         direct |-> CosmeticOption(Direct)]))
+\* the content type never changes what a document-level exception does to its page
+CTypeIrrelevant == (kind = "exception" /\ TheRule.docOpts # {}) => CosmeticOption(Basic) = CosmeticOption(RuleOf(TRUE, ms))
 \* no combination re-enables an option: adding a modifier only shrinks the option
-Antitone == kind = "exception" => \A m \in Mods : CosmeticOption(RuleOf(TRUE, ms \cup {m})) \subseteq CosmeticOption(Basic)
+Antitone == kind = "exception" => \A m \in Mods : CosmeticOption(RuleOf(TRUE, ms \cup {m})) \subseteq CosmeticOption(Direct)
 \* the option is All minus the union of what each modifier disables ("document" includes elemhide and jsinject)
 UnionOfParts == kind = "exception" =>
-    CosmeticOption(Basic) = AllCosmetic \ UNION { CosmeticOption(RuleOf(TRUE, {})) \ CosmeticOption(RuleOf(TRUE, {m})) : m \in ms }
+    CosmeticOption(Direct) = AllCosmetic \ UNION { CosmeticOption(RuleOf(TRUE, {})) \ CosmeticOption(RuleOf(TRUE, {m})) : m \in ms }
 =============================================================================
